@@ -345,6 +345,10 @@ def main(argv=None):
         os.makedirs(os.path.join(VERIF, "evidence"), exist_ok=True)
         with open(os.path.join(VERIF, "evidence", prop + ".json"), "w") as f:
             json.dump(ev, f, indent=1, default=repr)
+    if os.environ.get("VERIF_VERBOSE"):
+        for ur in unit_reports:
+            print("  unit %-70s paths=%-7d solver=%.1fs" % (
+                ur["unit"], ur["paths"], ur["solver_s"]))
     print("%s %s: units=%d paths=%d (vacuous %d) branches=%d proved=%d "
           "validated=%d sat/unsat/unknown=%d/%d/%d solver=%.1fs wall=%.1fs"
           % (prop, tier, len(sel), total.paths, total.vacuous, total.branches,
